@@ -72,6 +72,9 @@ func c06Profile(tier string) *eng.Profile {
 		up(core.Call{F: "SMoveByOneBucket", B: bS, K: "k", K2: "k", V: "m"}),
 		up(core.Call{F: "SMoveByTwoBuckets", B: bS, K: "k", B2: bS, K2: "k", V: "n"}),
 		up(core.Call{F: "SMoveByTwoBuckets", B: bT, K: "k", B2: bS, K2: "k", V: "o"}),
+		// the destination loses the member earlier in the same transaction (the final state does not
+		// depend on what the calls read: remove from j, remove from k, add to j)
+		up(core.Call{F: "SRem", B: bS, K: "j", Vs: []string{"m"}}, core.Call{F: "SMoveByOneBucket", B: bS, K: "k", K2: "j", V: "m"}),
 		{Kind: "begin-rollback", Calls: []core.Call{{F: "SAdd", B: bS, K: "k", Vs: []string{"r"}}, {F: "SMoveByOneBucket", B: bS, K: "k", K2: "j", V: "m"}}, IgnoreErr: true},
 		{Kind: "reopen"},
 	}
